@@ -12,6 +12,9 @@ import Blue.Proofs.ApplyCompaction
 import Blue.Proofs.ApplyCompactionB
 import Blue.Proofs.StoreHistRefine
 import Blue.Proofs.StoreHistTree
+import Blue.Proofs.ApplyLater
+import Blue.Proofs.StoreHistLater
+import Blue.Proofs.StoreHistLaterGc
 /-! # Property C01 — point reads return the latest write, whatever the tree did in between
 
 Property theorems only.  The store is modelled as the list of its components in *search order*
@@ -69,8 +72,9 @@ included — and I2 are preserved (`apply_preserves_inv`, `apply_preserves_newer
 `Blue.Kvs.invB` ∧ level-0 files well-formed ∧ ids distinct ⇔ `Inv` ∧ I2 on the same tree
 (`inv_bridge`); and from the empty version, after any sequence of ingests / compactions chosen by
 the selector / moving compactions, `Inv` ∧ I2 hold (`tree_invariant_inductive`).  Hypotheses that
-remain (not proved of the implementation): a compaction is applied to the tree it was chosen on
-(no ingest or other compaction in between); the outputs are well-formed, sorted with at most
+remain (not proved of the implementation): in `tree_invariant_inductive` a compaction is applied
+to the tree it was chosen on (the block `ApplyLater` at the end removes this: flushes and installs
+of other compactions in flight may lie between choice and install); the outputs are well-formed, sorted with at most
 touching ranges, inside the compaction's key range, with fresh ids, hold only input versions and
 are "newer above" among themselves (C03's subject); an ingested file is well-formed, has a fresh
 id, a newest timestamp above those of level 0 and versions newer than the tree's for their keys
@@ -112,8 +116,34 @@ discharges (1), (2), (5), (6), (7) from `apply_components`, `nextCompaction_chos
 that relation, with BOTH invariants (`Blue.StoreHist.Inv` and the selector's `Inv`, ids distinct)
 in every reached state.  Left as hypotheses of a history there: the id of a flushed table is fresh;
 the outputs of a merge meet `OutsOk`, hold exactly the inputs' versions — (3), no GC drop — and are
-"newer above" among themselves — (4).  A compaction is applied to the tree it was chosen on (the
-step is atomic: no flush between choice and application).
+"newer above" among themselves — (4).  In THAT relation a compaction is applied to the tree it was
+chosen on (the step is atomic: no flush between choice and application).
+
+Choice and install SEPARATED (block `ApplyLater` at the end, proofs `Blue.Proofs.ApplyLater`,
+`Blue.Proofs.StoreHistLater`): the code chooses under the `compaction` mutex on a snapshot
+(`compaction_thread`: `take_snapshot`, `next_compaction`, which pushes the answer onto the shared
+`ongoing` list), merges WITHOUT the mutex, and installs under the mutex on a FRESH snapshot
+(`apply_manifest_compaction` / `apply_moving_compaction`); the flush (`apply_manifest_ingest`) and
+the installs of other compaction threads change the version under the same mutex in between.
+Proved: `Chosen t c` — all that `apply_compaction_inner` needs of a compaction — survives
+`ingest` (`chosen_stable_under_ingest`: the new file is no input and is searched above every
+input) and survives the install of another compaction `c₁` provided `overlapping c₁ c = false`
+(`chosen_stable_under_disjoint_apply`), which is exactly what `may_choose_compaction` tests against
+every compaction in flight (`nextCompaction_not_overlapping`: level intervals disjoint or key
+ranges disjoint).  With "no common input" (`nextCompaction_respects_ongoing`) in its place the
+lemma is FALSE (`no_common_input_not_enough`: three levels, two files; the later install cuts a
+non-input file out of its output level by position).  The history relation with operations
+`write | rollover | flush | choose n o | install i outs | moveInstall i | abort i` — any number of
+compactions in flight, anything in between — satisfies `store_history_refines_concurrent`: reads
+return the last accepted write, both invariants hold in every reached state, every compaction in
+flight stays admissible on the current tree and no two overlap.  The hypotheses on a merge's
+outputs (`OutsOk`, exactly the inputs' versions, "newer above") are asked at INSTALL time on the
+tree installed on.  With garbage-collecting installs (`gcInstall i outs`: output level the last,
+`GcCompactionOk` from `gcCompactionOk_of_chosen`) the same holds with the exception of C05
+`history_refines_gc` — a deleted key may read "no version"
+(`store_history_refines_concurrent_gc`).  Steps are still completed critical sections of the
+`compaction` mutex: a reader holding an old snapshot is C06's subject; `Vec::swap_remove` on the
+in-flight list is modelled by `List.eraseIdx` (the invariant is independent of the order).
 
 What is NOT modelled (see `partial`/`assumptions` of the claim): reopen / `recover`, the
 verifier/trash clean-ups, external ingest, failing writes, concurrency (operations are completed
@@ -963,6 +993,291 @@ end TreeHist
 end StoreHistTree
 -- END StoreHistTree
 
+-- BEGIN ApplyLater
+/-! ## a compaction is installed LATER than it was chosen
+
+`Tree::compaction_thread` holds the `compaction` mutex while it takes a snapshot and runs
+`next_compaction` on it (which registers the answer in the shared `ongoing` list,
+`emit_compaction`), releases it for the merge (`perform_compaction`), and
+`apply_manifest_compaction` / `apply_moving_compaction` take it again, take a FRESH snapshot and
+apply the compaction to THAT version.  `apply_manifest_ingest` (the flush) changes the version under
+the same mutex.  So the tree a compaction is applied to is the tree it was chosen on plus any number
+of flushes and installs of other compactions in flight.  What `may_choose_compaction` guarantees of
+two compactions in flight is `!CompactionCore::overlapping`: level intervals `[lower, upper]`
+disjoint OR key ranges disjoint — more than "no common input" (`nextCompaction_respects_ongoing`),
+and the difference is needed (`no_common_input_not_enough`). -/
+section ApplyLater
+open Blue.NextCompaction Blue.StoreHist Blue.StoreHistTree Blue.StoreHistLater
+
+/-- **a flush between choice and install is harmless**: a compaction admissible on `t` is
+    admissible on `ingest t f` (fresh id, newest timestamp of level 0): the new file is no input
+    and is searched ABOVE every input; `Closed` constrains only what lies below an input -/
+theorem chosen_stable_under_ingest {t : Tree} {c : Core} (hc : Chosen t c) {f : File}
+    (hfresh : ∀ l g, g ∈ level t l → g.id ≠ f.id) (hbts : ∀ g ∈ level t 0, g.bts < f.bts) :
+    Chosen (ingest t f) c :=
+  Blue.NextCompaction.chosen_stable_under_ingest hc hfresh hbts
+
+/-- … hence, applied to the tree reached by ANY number of flushes, it preserves the tree invariant
+    (I1 included) and I2 under any memtables (hypotheses on the outputs as in
+    `apply_preserves_inv` / `apply_preserves_newer_above`, on the tree it is applied to) -/
+theorem apply_after_ingests {t t' : Tree} {c : Core} {outs : List File} (hi : Ingests t t') (hc : Chosen t c)
+    (hinv' : Blue.NextCompaction.Inv t') (ho : OutsOk t' c outs) (mems : List (List (Ver Nat)))
+    (hna : NewerAbove (mems ++ Blue.NextCompaction.treeComps t'))
+    (hsub : ∀ o ∈ outs, ∀ e ∈ o.vers, ∃ i f, f ∈ level t' i ∧ f.id ∈ c.inputs ∧ e ∈ f.vers)
+    (hnew : NewerAbove (comps outs)) :
+    Chosen t' c ∧ Blue.NextCompaction.Inv (applyCompaction t' c outs)
+      ∧ NewerAbove (mems ++ Blue.NextCompaction.treeComps (applyCompaction t' c outs)) :=
+  Blue.NextCompaction.apply_after_ingests hi hc hinv' ho mems hna hsub hnew
+
+/-- what the selector guarantees of the compactions in flight: `may_choose_compaction`'s
+    `overlapping` test -/
+theorem nextCompaction_not_overlapping (n : Num) (o : Opts) (t : Tree) (og : List Core) {c : Core}
+    (h : nextCompaction n o t og = some c) : ∀ g ∈ og, overlapping g c = false :=
+  Blue.NextCompaction.nextCompaction_not_overlapping n o t og h
+
+/-- **another install between choice and install is harmless**: `c₁`, `c₂` admissible on `t` and
+    not `overlapping`; after `apply_compaction_inner` of `c₁`, `c₂` is still admissible -/
+theorem chosen_stable_under_disjoint_apply {t : Tree} {c₁ c₂ : Core} {outs₁ : List File}
+    (hinv : Blue.NextCompaction.Inv t) (h1 : Chosen t c₁) (ho : OutsOk t c₁ outs₁) (h2 : Chosen t c₂)
+    (hno : overlapping c₁ c₂ = false) : Chosen (applyCompaction t c₁ outs₁) c₂ :=
+  Blue.NextCompaction.chosen_stable_under_disjoint_apply hinv h1 ho h2 hno
+
+/-- two compactions in flight can be installed in either order -/
+theorem install_either_order {t : Tree} {c₁ c₂ : Core} {o₁ o₂ : List File} (hinv : Blue.NextCompaction.Inv t)
+    (h1 : Chosen t c₁) (h2 : Chosen t c₂) (hno : overlapping c₁ c₂ = false)
+    (ho1 : OutsOk t c₁ o₁) (ho2 : OutsOk t c₂ o₂)
+    (ho21 : OutsOk (applyCompaction t c₁ o₁) c₂ o₂) (ho12 : OutsOk (applyCompaction t c₂ o₂) c₁ o₁) :
+    Blue.NextCompaction.Inv (applyCompaction (applyCompaction t c₁ o₁) c₂ o₂)
+      ∧ Blue.NextCompaction.Inv (applyCompaction (applyCompaction t c₂ o₂) c₁ o₁) :=
+  Blue.NextCompaction.install_either_order hinv h1 h2 hno ho1 ho2 ho21 ho12
+
+/-- **with "no common input" alone it is FALSE** (three levels, two files; the second install then
+    drops a file that is none of its inputs: `NoCommonInputIsNotEnough.install_drops_A`) -/
+theorem no_common_input_not_enough : ∃ (t : Tree) (c₁ c₂ : Core) (outs₁ : List File),
+    Blue.NextCompaction.Inv t ∧ Chosen t c₁ ∧ OutsOk t c₁ outs₁ ∧ Chosen t c₂
+      ∧ (∀ id ∈ c₁.inputs, id ∉ c₂.inputs) ∧ ¬ Chosen (applyCompaction t c₁ outs₁) c₂ :=
+  Blue.NextCompaction.no_common_input_not_enough
+
+/-- **store_history_refines_concurrent**: the composed history with choosing and installing as
+    SEPARATE operations (`choose n o | install i outs | moveInstall i | abort i`, any number of
+    compactions in flight, writes / rollovers / flushes in between): `kvsLoad` returns the last
+    accepted write, the payload map holds its payload, and `LInv` holds in the state reached — both
+    invariants of `store_history_refines`, every compaction in flight admissible on the CURRENT
+    tree, no two overlapping -/
+theorem store_history_refines_concurrent (k : Nat) (ops : List LOp) (hv : LValid (linit k) ops) (key t : Nat)
+    (ht : (lrun (linit k) ops).base.vis ≤ t) :
+    kvsLoad (toKState (lrun (linit k) ops).base.mem (lrun (linit k) ops).base.imm (lrun (linit k) ops).base.tree) key t
+        = (lspec k ops key).map (fun e => (key, e.1))
+    ∧ (∀ ts p, lspec k ops key = some (ts, p) → (lrun (linit k) ops).base.pay key ts = some p)
+    ∧ LInv (lrun (linit k) ops) :=
+  Blue.StoreHistLater.store_history_refines_concurrent k ops hv key t ht
+
+theorem concurrent_reads_last_write (k : Nat) (ops : List LOp) (hv : LValid (linit k) ops) (key : Nat) :
+    Blue.StoreHist.read (lrun (linit k) ops).base.toH key = lastWrite (ops.map ltoOp) key :=
+  Blue.StoreHistLater.concurrent_reads_last_write k ops hv key
+
+/-- … garbage-collecting installs included (`gcInstall i outs`: output level the last, outputs may
+    drop versions — `GcCompactionOk` through `gcCompactionOk_of_chosen`): the read answers the
+    payload of the last accepted write, except that a deleted key may read "no version" once its
+    tombstone has been collected (the exception of C05 `history_refines_gc`) -/
+theorem store_history_refines_concurrent_gc (k : Nat) (ops : List Blue.StoreHistLaterGc.GOp)
+    (hv : Blue.StoreHistLaterGc.GValid (linit k) ops) (key : Nat) :
+    (Blue.StoreHist.read (Blue.StoreHistLaterGc.grun (linit k) ops).base.toH key
+        = lastWrite (ops.map Blue.StoreHistLaterGc.gtoOp) key
+      ∨ (lastWrite (ops.map Blue.StoreHistLaterGc.gtoOp) key = some none
+          ∧ Blue.StoreHist.read (Blue.StoreHistLaterGc.grun (linit k) ops).base.toH key = none))
+    ∧ LInv (Blue.StoreHistLaterGc.grun (linit k) ops) :=
+  Blue.StoreHistLaterGc.store_history_refines_concurrent_gc k ops hv key
+
+/-- the atomic step of `store_history_refines` is `choose` directly followed by `install` -/
+theorem atomic_is_choose_then_install (s : LState) (n : Num) (o : Opts) (outs : List File) :
+    (lapply (lapply s (.choose n o)) (.install s.og.length outs)).base.tree
+      = (tapply s.base (.compactSel n o s.og outs)).tree :=
+  Blue.StoreHistLater.atomic_is_choose_then_install s n o outs
+
+/-! ### non-vacuity: the history of `TreeHist`, with the move of table 1 CHOSEN while it is alone in
+    level 0, table 2 flushed in between, the move installed on the tree holding both; then the merge
+    chosen, a write in between, the merge installed. -/
+namespace LaterHist
+open Example TreeHist
+
+def mv : Core := ⟨0, 1, 5, 7, [1], 100⟩
+def mg : Core := ⟨0, 1, 3, 7, [2, 1], 200⟩
+
+def lops : List LOp :=
+  [.write [(5, some 50), (7, some 70)], .write [(5, none)], .rollover, .write [(3, some 30)], .flush 1 100,
+   .write [(7, some 71)], .rollover,
+   .choose ieee opts, .flush 2 100, .moveInstall 0,
+   .choose ieee opts, .write [(9, some 90), (9, none)], .write [(3, none), (8, some 80)], .install 0 [out], .rollover]
+
+theorem choice7 : nextCompaction ieee opts [[f1], []] [] = some mv := by decide +kernel
+
+/-- the state after `j` operations -/
+def st (j : Nat) : LState := lrun (linit 1) (lops.take j)
+
+theorem st_succ (j : Nat) (op : LOp) (h : lops[j]? = some op) : st (j + 1) = lapply (st j) op := by
+  unfold st lrun
+  rw [List.take_add_one, h, List.foldl_append]; rfl
+
+theorem tree7 : (st 7).base.tree = [[f1], []] ∧ (st 7).og = [] := ⟨rfl, rfl⟩
+
+/-- `choose`: the move of table 1 is in flight, the tree is as it was -/
+theorem st8 : st 8 = ⟨(st 7).base, [mv]⟩ := by
+  rw [st_succ 7 _ rfl, lapply_choose_some (st 7) ieee opts (c := mv) (by rw [tree7.1, tree7.2]; exact choice7)]
+  rfl
+
+/-- the flush in between: table 2 is pushed onto level 0, the move still in flight -/
+theorem tree9 : (st 9).base.tree = [[f1, f2], []] ∧ (st 9).og = [mv] := by
+  rw [st_succ 8 _ rfl, st8]; exact ⟨rfl, rfl⟩
+
+/-- the move is installed on the tree holding BOTH tables (not the one it was chosen on) -/
+theorem tree10 : (st 10).base.tree = [[f2], [f1]] ∧ (st 10).og = [] := by
+  rw [st_succ 9 _ rfl, lapply_move_some (st 9) (c := mv) (f := f1) (by rw [tree9.2]; rfl) (by rw [tree9.1]; rfl)]
+  show applyTrivialMove (st 9).base.tree mv f1 = _ ∧ (st 9).og.eraseIdx 0 = _
+  rw [tree9.1, tree9.2]; exact ⟨rfl, rfl⟩
+
+theorem st11 : st 11 = ⟨(st 10).base, [mg]⟩ := by
+  rw [st_succ 10 _ rfl, lapply_choose_some (st 10) ieee opts (c := mg) (by rw [tree10.1, tree10.2]; exact choice9)]
+  rw [tree10.2]; rfl
+
+theorem tree13 : (st 13).base.tree = [[f2], [f1]] ∧ (st 13).og = [mg] := by
+  rw [st_succ 12 _ rfl, st_succ 11 _ rfl, st11]
+  refine ⟨?_, rfl⟩
+  show (st 10).base.tree = _
+  exact tree10.1
+
+theorem tree14 : (st 14).base.tree = [[], [out]] ∧ (st 14).og = [] := by
+  rw [st_succ 13 _ rfl, lapply_install_some (st 13) [out] (c := mg) (by rw [tree13.2]; rfl)]
+  show applyCompaction (st 13).base.tree mg [out] = _ ∧ (st 13).og.eraseIdx 0 = _
+  rw [tree13.1, tree13.2]; exact ⟨rfl, rfl⟩
+
+theorem lvalid_from (j : Nat) (ops : List LOp) (h : lops.drop j = ops) : LValid (st j) ops ↔ LValid (st j) (lops.drop j) := by
+  rw [h]
+
+theorem lops_valid : LValid (linit 1) lops := by
+  have key : ∀ (j : Nat) (rest : List LOp) (op : LOp), lops[j]? = some op →
+      LOpOk (st j) op → LValid (st (j + 1)) rest → LValid (st j) (op :: rest) := by
+    intro j rest op h ok hv
+    refine ⟨ok, ?_⟩
+    rw [← st_succ j op h]; exact hv
+  show LValid (st 0) lops
+  refine key 0 _ _ rfl trivial <| key 1 _ _ rfl trivial <| key 2 _ _ rfl trivial <| key 3 _ _ rfl trivial <|
+    key 4 _ _ rfl ?_ <| key 5 _ _ rfl trivial <| key 6 _ _ rfl trivial <| key 7 _ _ rfl trivial <|
+    key 8 _ _ rfl ?_ <| key 9 _ _ rfl trivial <| key 10 _ _ rfl trivial <| key 11 _ _ rfl trivial <|
+    key 12 _ _ rfl trivial <| key 13 _ _ rfl ?_ <| key 14 _ _ rfl trivial <| trivial
+  · intro _ _ _ l g hg
+    have := mem_flatten_level.mpr ⟨l, hg⟩
+    have e : (st 4).base.tree = [[], []] := rfl
+    rw [e] at this
+    cases this
+  · intro _ _ _ l g hg
+    have := mem_flatten_level.mpr ⟨l, hg⟩
+    rw [st8, tree7.1] at this
+    simp only [List.flatten_cons, List.flatten_nil, List.append_nil, List.mem_singleton] at this
+    rw [this]; decide
+  · intro c hc
+    rw [tree13.2] at hc
+    cases hc
+    rw [tree13.1]
+    exact ⟨outsOk_of_flatten (by decide) (by decide) (by decide) (by decide) (by decide),
+      sub_of_flatten (by decide), sup_of_flatten (by decide), by decide⟩
+
+theorem final_tree : (lrun (linit 1) lops).base.tree = [[], [out]] ∧ (lrun (linit 1) lops).og = [] := by
+  have e : lrun (linit 1) lops = st 15 := rfl
+  rw [e, st_succ 14 _ rfl]
+  exact ⟨tree14.1, tree14.2⟩
+
+theorem last_writes : lastWrite (lops.map ltoOp) 5 = some none ∧ lastWrite (lops.map ltoOp) 7 = some (some 71)
+    ∧ lastWrite (lops.map ltoOp) 9 = none := by decide
+
+/-- the theorem instantiated: key 5 ends deleted, 7 overwritten, 9 only named by the rejected batch -/
+example : Blue.StoreHist.read (lrun (linit 1) lops).base.toH 5 = some none
+    ∧ Blue.StoreHist.read (lrun (linit 1) lops).base.toH 7 = some (some 71)
+    ∧ Blue.StoreHist.read (lrun (linit 1) lops).base.toH 9 = none := by
+  simp only [Blue.Props.C01.concurrent_reads_last_write 1 lops lops_valid]
+  exact last_writes
+
+example : LInv (lrun (linit 1) lops) :=
+  (Blue.Props.C01.store_history_refines_concurrent 1 lops lops_valid 0 (lrun (linit 1) lops).base.vis (Nat.le_refl _)).2.2
+
+/-- `chosen_stable_under_ingest` instantiated: the move chosen on `[[f1], []]` is admissible on the
+    tree after the flush of table 2 -/
+example : Chosen [[f1, f2], []] mv :=
+  Blue.Props.C01.chosen_stable_under_ingest (t := [[f1], []]) (f := f2)
+    (nextCompaction_chosen ieee opts _ [] (Blue.NextCompaction.invB_sound (by decide +kernel)) choice7)
+    (by
+      intro l g hg
+      have := mem_flatten_level.mpr ⟨l, hg⟩
+      simp only [List.flatten_cons, List.flatten_nil, List.append_nil, List.mem_singleton] at this
+      rw [this]; decide)
+    (by
+      intro g hg
+      have hg' : g ∈ [f1] := hg
+      simp only [List.mem_singleton] at hg'
+      rw [hg']; decide)
+
+/-- two compactions in flight: on `ApplyExample`'s tree the selector, told that its first answer
+    `c2` (levels 1 → 2, keys 5..8) is in flight, answers a second one at the SAME levels with the
+    disjoint key range 0..4 -/
+theorem t2_second : nextCompaction ieee o2 t2 [c2] = some ⟨1, 2, 0, 4, [2, 5], 200⟩ := by decide +kernel
+
+/-- `nextCompaction_not_overlapping` / `chosen_stable_under_disjoint_apply` with hypotheses that
+    hold: the first installed, the second is still admissible on the successor -/
+example : Chosen (applyCompaction t2 c2 [ApplyExample.outA, ApplyExample.outB]) ⟨1, 2, 0, 4, [2, 5], 200⟩ :=
+  Blue.Props.C01.chosen_stable_under_disjoint_apply t2_inv
+    (nextCompaction_chosen ieee o2 t2 [] t2_inv t2_choice) ApplyExample.outs_ok
+    (nextCompaction_chosen ieee o2 t2 [c2] t2_inv t2_second)
+    (Blue.Props.C01.nextCompaction_not_overlapping ieee o2 t2 [c2] t2_second c2 (List.mem_singleton.mpr rfl))
+
+/-- the counterexample evaluated: both admissible, no common input, overlapping; after the first
+    install the second is not admissible, and installing it leaves only its own output -/
+example : chosenB NoCommonInputIsNotEnough.t NoCommonInputIsNotEnough.c₁ = true
+    ∧ chosenB NoCommonInputIsNotEnough.t NoCommonInputIsNotEnough.c₂ = true
+    ∧ overlapping NoCommonInputIsNotEnough.c₁ NoCommonInputIsNotEnough.c₂ = true
+    ∧ chosenB (applyCompaction NoCommonInputIsNotEnough.t NoCommonInputIsNotEnough.c₁ [NoCommonInputIsNotEnough.A])
+        NoCommonInputIsNotEnough.c₂ = false := by
+  refine ⟨by decide +kernel, by decide +kernel, by decide, by decide +kernel⟩
+
+/-- the same history with the merge installed as a GARBAGE COLLECTION (level 1 is the last level of
+    this version, so `perform_garbage_collection` is what the code runs): the output keeps the
+    newest version of every key and drops `5@1` and `7@1` -/
+def outG : File := mk 3 3 7 200 5 [(3, 4), (5, 2), (7, 5)]
+
+open Blue.StoreHistLaterGc in
+def gops : List GOp := (lops.take 13).map .plain ++ [.gcInstall 0 [outG], .plain .rollover]
+
+open Blue.StoreHistLaterGc in
+theorem gops_valid : GValid (linit 1) gops := by
+  apply gvalid_plain_append
+  · exact LValid.prefix (lops.take 13) (lops.drop 13) _ (by rw [List.take_append_drop]; exact lops_valid)
+  · refine ⟨?_, trivial, trivial⟩
+    show GOpOk (st 13) (.gcInstall 0 [outG])
+    intro c hc
+    rw [tree13.2] at hc
+    cases hc
+    rw [tree13.1]
+    refine ⟨outsOk_of_flatten (by decide) (by decide) (by decide) (by decide) (by decide), rfl,
+      sub_of_flatten (by decide), ?_, by decide⟩
+    exact Blue.StoreHistGc.newestKeptB_sound _ _ _ (by decide +kernel)
+
+open Blue.StoreHistLaterGc in
+example : (grun (linit 1) gops).base.tree.map (fun l => l.map (·.vers)) = [[], [[(3, 4), (5, 2), (7, 5)]]] := by
+  unfold gops
+  rw [grun_append, grun_plain]
+  show (gapply (gapply (st 13) (.gcInstall 0 [outG])) (.plain .rollover)).base.tree.map _ = _
+  show ((lapply (st 13) (.install 0 [outG])).base.tree).map _ = _
+  rw [lapply_install_some (st 13) [outG] (c := mg) (by rw [tree13.2]; rfl)]
+  show (applyCompaction (st 13).base.tree mg [outG]).map _ = _
+  rw [tree13.1]; rfl
+
+open Blue.StoreHistLaterGc in
+example : LInv (grun (linit 1) gops) :=
+  (Blue.Props.C01.store_history_refines_concurrent_gc 1 gops gops_valid 0).2
+
+end LaterHist
+end ApplyLater
+-- END ApplyLater
+
 end Blue.Props.C01
 
 #print axioms Blue.Props.C01.read_returns_latest
@@ -1030,3 +1345,15 @@ end Blue.Props.C01
 #print axioms Blue.Props.C01.store_history_refines
 #print axioms Blue.Props.C01.store_history_reads_last_write
 #print axioms Blue.Props.C01.store_history_states_pass_invB
+#print axioms Blue.Props.C01.chosen_stable_under_ingest
+#print axioms Blue.Props.C01.apply_after_ingests
+#print axioms Blue.Props.C01.nextCompaction_not_overlapping
+#print axioms Blue.Props.C01.chosen_stable_under_disjoint_apply
+#print axioms Blue.Props.C01.install_either_order
+#print axioms Blue.Props.C01.no_common_input_not_enough
+#print axioms Blue.Props.C01.store_history_refines_concurrent
+#print axioms Blue.Props.C01.concurrent_reads_last_write
+#print axioms Blue.Props.C01.store_history_refines_concurrent_gc
+#print axioms Blue.Props.C01.atomic_is_choose_then_install
+#print axioms Blue.Props.C01.LaterHist.lops_valid
+#print axioms Blue.NextCompaction.NoCommonInputIsNotEnough.install_drops_A
